@@ -673,6 +673,35 @@ class Model(object):
       out += [b - shift for b in self._expr_breaks(node["expr"], set())]
     return out
 
+  def exact_breakpoints(self, node):
+    """Breakpoints whose comparison the library itself makes on the very double it was given: range starts,
+    spline detach / r_min / attach and table ends that are NOT reached through trans() (r+X is rounded) and
+    not inside a formula (exprtk parses its own literals).  At these, '>' versus '>=' can be checked exactly."""
+    k = node["k"]
+    out = []
+    if k in ("sum", "product", "pow"):
+      for a in node["a"]:
+        out += self.exact_breakpoints(a)
+    elif k == "ranges":
+      for m, s, sub in node["parts"]:
+        if float(s) != float("-inf"):
+          out.append(float(s))
+        out += self.exact_breakpoints(sub)
+    elif k == "spline":
+      out += [float(node["rd"]), float(node["ra"])]
+      if node["kind"] == "buck4_spline":
+        out.append(float(node["rmin"]))
+      s0 = node.get("s0")
+      if s0 and s0[0] != "-inf":
+        out.append(float(s0[1]))
+      out += self.exact_breakpoints(node["start"]) + self.exact_breakpoints(node["end"])
+    elif k == "buck4":
+      out += [float(v) for v in node["p"][3:6]]
+    elif k == "table":
+      t = self.tables[node["name"]]
+      out += [float(t["x"][0]), float(t["x"][-1])]
+    return out
+
   def _expr_breaks(self, e, seen):
     """Breakpoints of a formula in its first argument: if() thresholds, the data points of
     table forms it calls and the breakpoints of custom forms it calls (generated formulas pass
